@@ -859,6 +859,107 @@ func SameValue(a, b ssa.Value) bool {
 	return sameRoot(ra[0], rb[0])
 }
 
+// SameAsCallResult: v is the (first) result of call — or, where the callee gained a second,
+// boolean result, a merge of that result with the constant the callee itself returns whenever
+// the boolean has the value tested on that edge (id, ok := f(); if !ok { id = "" } where f
+// returns "", false on every not-ok path): the merged value equals the result on every path.
+func SameAsCallResult(v ssa.Value, call ssa.Value) bool {
+	if SameValue(v, call) {
+		return true
+	}
+	cl, ok := call.(*ssa.Call)
+	if !ok {
+		return false
+	}
+	var first ssa.Value = cl
+	if cl.Call.Signature().Results().Len() > 1 {
+		first = nil
+		for _, r := range Refs(cl) {
+			if e, isE := r.(*ssa.Extract); isE && e.Index == pinnedResultPos(cl, 0) {
+				first = e
+			}
+		}
+		if first == nil {
+			return false
+		}
+		if SameValue(v, first) {
+			return true
+		}
+	}
+	phi, ok := Peel(v).(*ssa.Phi)
+	if !ok {
+		return false
+	}
+	callee := StaticFunc(cl.Common())
+	if callee == nil {
+		return false
+	}
+	own := 0
+	for k, e := range phi.Edges {
+		if SameValue(e, first) {
+			own++
+			continue
+		}
+		ec, isC := e.(*ssa.Const)
+		if !isC || k >= len(phi.Block().Preds) {
+			return false
+		}
+		// the edge is taken on one outcome of a boolean co-result of the same call
+		pred, blk := phi.Block().Preds[k], phi.Block()
+		for n := 0; BlockIf(pred) == nil && len(pred.Preds) == 1 && len(pred.Succs) == 1 && n < 3; n++ {
+			pred, blk = pred.Preds[0], pred
+		}
+		ifi := BlockIf(pred)
+		if ifi == nil || len(pred.Succs) != 2 || pred.Succs[0] == pred.Succs[1] {
+			return false
+		}
+		truth := pred.Succs[0] == blk
+		cond := ifi.Cond
+		if u, isU := cond.(*ssa.UnOp); isU && u.Op == token.NOT {
+			cond, truth = u.X, !truth
+		}
+		ex, isE := cond.(*ssa.Extract)
+		if !isE || ex.Tuple != ssa.Value(cl) {
+			return false
+		}
+		n := 0
+		for _, b := range callee.Blocks {
+			ret, isR := b.Instrs[len(b.Instrs)-1].(*ssa.Return)
+			if !isR || ex.Index >= len(ret.Results) {
+				continue
+			}
+			bc, isB := ret.Results[ex.Index].(*ssa.Const)
+			if !isB || bc.Value == nil || bc.Value.Kind() != constant.Bool {
+				return false // the co-result is computed: no correlation is known
+			}
+			if constant.BoolVal(bc.Value) != truth {
+				continue
+			}
+			rc, isRC := ret.Results[pinnedResultPos(cl, 0)].(*ssa.Const)
+			if !isRC || rc.Value == nil || ec.Value == nil || !constant.Compare(rc.Value, token.EQL, ec.Value) {
+				return false
+			}
+			n++
+		}
+		if n == 0 {
+			return false
+		}
+	}
+	return own > 0
+}
+
+// pinnedResultPos: the current position of the pinned result i of the call's callee.
+func pinnedResultPos(cl *ssa.Call, i int) int {
+	if f := StaticFunc(cl.Common()); f != nil {
+		if obj, ok := f.Object().(*types.Func); ok {
+			if k := pinnedResultIndex(obj, i); k >= 0 {
+				return k
+			}
+		}
+	}
+	return i
+}
+
 func sameRoot(a, b ssa.Value) bool {
 	if a == b {
 		return true
@@ -964,6 +1065,15 @@ func AccessPath(v ssa.Value) (string, bool) {
 	case *ssa.UnOp:
 		if x.Op == token.MUL {
 			if fa, ok := x.X.(*ssa.FieldAddr); ok {
+				// a configuration struct filled once from flags/package variables and handed down:
+				// the field reads as the variable it was filled from
+				if IsNewType(fa.X.Type()) {
+					if val := newStructField(fa.X, fa.Field); val != nil {
+						if vp, okv := AccessPath(val); okv && (strings.HasPrefix(vp, "*global:") || strings.HasPrefix(vp, "**global:") || strings.HasPrefix(vp, "const:")) {
+							return vp, true
+						}
+					}
+				}
 				b, ok := AccessPath(fa.X)
 				return fieldStep(b, fa.X, fa.Field, ""), ok
 			}
@@ -1851,10 +1961,30 @@ func Conjuncts(v ssa.Value, depth int) []ssa.Value {
 // literal when it is the only store to that field.
 func newStructField(base ssa.Value, idx int) ssa.Value {
 	var alloc *ssa.Alloc
-	for depth := 0; depth < 8 && alloc == nil; depth++ {
+	for depth := 0; depth < 24 && alloc == nil; depth++ {
 		switch b := base.(type) {
 		case *ssa.Alloc:
+			// a local copy of a struct value (the spill of a by-value parameter, `c := cfg`): the
+			// fields are those of the value it was copied from
+			if sts := storesTo(b); len(sts) == 1 {
+				if _, isStruct := derefT1(b.Type()).Underlying().(*types.Struct); isStruct {
+					switch sts[0].(type) {
+					case *ssa.Parameter, *ssa.Call, *ssa.UnOp, *ssa.FreeVar:
+						if types.Identical(sts[0].Type(), derefT1(b.Type())) {
+							base = sts[0]
+							continue
+						}
+					}
+				}
+			}
 			alloc = b
+		case *ssa.Call:
+			// the value a constructor helper returns
+			if rs := helperResults(b, 0); len(rs) == 1 {
+				base = rs[0]
+				continue
+			}
+			return nil
 		case *ssa.UnOp:
 			if b.Op != token.MUL {
 				return nil
@@ -1872,6 +2002,10 @@ func newStructField(base ssa.Value, idx int) ssa.Value {
 			base = b.X
 		case *ssa.Parameter:
 			a := helperParamArg(b)
+			if a == nil && IsNewType(b.Type()) {
+				// a grouping struct handed down through functions that each have one call site
+				a = soleSiteArg(b)
+			}
 			if a == nil {
 				// the receiver of a method of a single-literal type
 				if m := b.Parent(); len(m.Params) > 0 && m.Params[0] == b && m.Signature.Recv() != nil {
